@@ -508,18 +508,16 @@ func contains(l []string, s string) bool {
 	return false
 }
 
-// dotImported: the model package is dot-imported, so its types are written without a qualifier.
+// dotImported: the model package is dot-imported by the controller's file, so its types are written without a qualifier.
 func (b *typeBuilder) dotImported() {
 	id := b.nextID()
-	other := "type Dot" + id + " struct {\n\tZ string `json:\"z\"`\n}\n\ntype DotKind" + id + " string\n\nconst (\n\tDotKind" + id + "A DotKind" + id + " = \"a\"\n)\n"
-	decl := "type Holder" + id + " struct {\n\tD Dot" + id + " `json:\"d\"`\n\tK []DotKind" + id + " `json:\"k\"`\n}\n"
-	ctl := scen.Controller{Name: "C" + id, Pkg: id, Prefix: scen.S("/" + id), Tag: scen.S("T" + id), Methods: []scen.Method{usageMethod(id, "return", "Holder"+id)}}
-	u := scen.Unit{Controllers: []scen.Controller{ctl}, Decls: map[string]string{id: decl, id + "/dotted" + id: other},
+	other := "type Dot" + id + " struct {\n\tZ string `json:\"z\"`\n\tK []DotKind" + id + " `json:\"k\"`\n}\n\ntype DotKind" + id + " string\n\nconst (\n\tDotKind" + id + "A DotKind" + id + " = \"a\"\n)\n"
+	ctl := scen.Controller{Name: "C" + id, Pkg: id, Prefix: scen.S("/" + id), Tag: scen.S("T" + id), Methods: []scen.Method{usageMethod(id, "return", "Dot"+id)}}
+	u := scen.Unit{Controllers: []scen.Controller{ctl}, Decls: map[string]string{id + "/dotted" + id: other},
 		Imports: map[string][]string{id: {". " + scen.ModulePath + "/" + id + "/dotted" + id}}}
-	b.cases = append(b.cases, scen.Case{ID: id, Unit: u, Features: map[string]string{"family": "type-cross-package", "import": "dot"}, Desc: map[string]any{"decls": decl, "other": other}})
+	b.cases = append(b.cases, scen.Case{ID: id, Unit: u, Features: map[string]string{"family": "type-dot-import"}, Desc: map[string]any{"other": other, "controller": ctl}})
 	b.exp[id] = TypeExpect{Schemas: map[string]ExpSchema{
-		"Holder" + id:  {Kind: "struct", Props: map[string][]string{"d": {"$ref:Dot" + id}, "k": {"array<$ref:DotKind" + id + ">"}}},
-		"Dot" + id:     {Kind: "struct", Props: map[string][]string{"z": {"string"}}},
+		"Dot" + id:     {Kind: "struct", Props: map[string][]string{"z": {"string"}, "k": {"array<$ref:DotKind" + id + ">"}}},
 		"DotKind" + id: {Kind: "enum", Values: []string{"a"}, Base: "string"},
 	}}
 }
